@@ -542,7 +542,8 @@ class _FragmentCompiler:
                     with arst_emitter.indent():
                         arst_emitter.append("pass")
                         for (signal, mask) in lhs_masks.masks():
-                            if not signal.reset_less:
+                            # (The data register of a memory read port has no reset.)
+                            if not signal.reset_less and not isinstance(fragment, MemoryInstance):
                                 if signal.shape().signed and (mask & 1 << (len(signal) - 1)):
                                     mask |= -1 << len(signal)
                                 signal_index = self.state.get_signal(signal)
@@ -558,7 +559,9 @@ class _FragmentCompiler:
 
                 _StatementCompiler(self.state, emitter)(domain_stmts)
 
-                if domain.rst is not None:
+                # The data register of a memory read port has no reset: the netlist gives `$memrd_v2`
+                # no reset either, and a disabled read port holds its output.
+                if domain.rst is not None and not isinstance(fragment, MemoryInstance):
                     rhs = _RHSValueCompiler(self.state, emitter, mode="curr")
                     rst = rhs(domain.rst)
                     rst = f"(1 & {rst})"
